@@ -16,7 +16,8 @@ for sid in sorted(os.listdir(os.path.join(V, "seeded"))):
     if ap.returncode != 0:
         rows.append((sid, prop, "patch no longer applies", "")); continue
     try:
-        p = subprocess.run([os.path.join(V, "check"), prop], capture_output=True, text=True, cwd=V, timeout=3000)
+        p = subprocess.run([os.path.join(V, "check"), prop], capture_output=True, text=True, cwd=V, timeout=3000,
+                           env=dict(os.environ, VERIF_EVIDENCE_DIR=os.path.join(V, "build", "seed-evidence")))
     finally:
         subprocess.run(["git", "-C", "/repo", "checkout", "--", "."])
     out = p.stdout
